@@ -1,5 +1,6 @@
 import NavisModel.Proofs.RerootLemmas
 import NavisModel.Proofs.WfB
+import NavisModel.Proofs.OpsWF
 /-!
 # C01 — every operation that yields a skeleton yields a well-formed skeleton
 
@@ -25,13 +26,10 @@ theorem classify_correct (t : Table) (n : Node) :
 
 theorem classify_labels_fresh (t : Table) : labelsOKB (classify t) = true := labelsOKB_classify t
 
-/-- Operations proved so far (the remaining constructors of `Op` — `removeNodes`, `downsample` — are
-covered by `Proofs/OpsWF.lean` when present; until then they are validated by the run-time oracle). -/
-def Op.core : Op → Prop
-  | .subset _ | .reroot _ | .cutDistal _ | .cutProximal _ | .reclassify => True
-  | _ => False
-
-theorem op_preserves_WF_partial (t : Table) (hw : WF t) (op : Op) (hop : Op.core op) : WF (applyOp t op) := by
+/-- **Every operation preserves well-formedness**, for every table and every argument — all
+constructors of `Op` (subset, reroot, both cut halves, `remove_nodes`, `downsample`, re-classification),
+with no side condition beyond `WF t`. -/
+theorem op_preserves_WF (t : Table) (hw : WF t) (op : Op) : WF (applyOp t op) := by
   cases op with
   | subset k => exact WF_subset hw _
   | reroot r => exact WF_reroot hw r
@@ -46,26 +44,143 @@ theorem op_preserves_WF_partial (t : Table) (hw : WF t) (op : Op) (hop : Op.core
     | none => exact hw
     | some dp => obtain ⟨d, p⟩ := dp; simp only; rw [(cut_some hc).2.1]; exact WF_subset hw _
   | reclassify => exact WF_classify hw
-  | removeNodes w => exact absurd hop (by simp [Op.core])
-  | downsample f p => exact absurd hop (by simp [Op.core])
+  | removeNodes w => exact WF_removeNodes hw w
+  | downsample f p => exact WF_downsample hw f p
 
-/-- **Histories**: any finite sequence of (core) operations applied to a well-formed skeleton leaves a
+/-- **Histories**: any finite sequence of operations applied to a well-formed skeleton leaves a
 well-formed skeleton — by induction over the sequence, no bound on its length. -/
-theorem ops_preserve_WF_partial (t : Table) (hw : WF t) (ops : List Op) (hops : ∀ op ∈ ops, Op.core op) :
-    WF (ops.foldl applyOp t) := by
+theorem ops_preserve_WF (t : Table) (hw : WF t) (ops : List Op) : WF (ops.foldl applyOp t) := by
   induction ops generalizing t with
   | nil => exact hw
-  | cons op ops ih =>
-    exact ih _ (op_preserves_WF_partial t hw op (hops op (by simp))) (fun o ho => hops o (by simp [ho]))
+  | cons op ops ih => exact ih _ (op_preserves_WF t hw op)
+
+/-! ### `remove_nodes` -/
+
+theorem removeNodes_preserves_WF (t : Table) (hw : WF t) (which : List Int) : WF (removeNodes t which) :=
+  WF_removeNodes hw which
+
+/-- `remove_nodes` returns exactly the rows not listed (when all listed ids exist; navis raises otherwise). -/
+theorem removeNodes_ids (t : Table) (which : List Int) (hg : ∀ w ∈ which, w ∈ ids t) :
+    ids (removeNodes t which) = (ids t).filter (fun i => !which.contains i) := ids_removeNodes hg
+
+/-- The new parent of a kept node is the first node after itself on its *old* root path that is not
+removed; if every ancestor is removed it becomes a root (negative parent). -/
+theorem removeNodes_parent_is_nearest_kept_ancestor (t : Table) (hw : WF t) (which : List Int)
+    (hg : ∀ w ∈ which, w ∈ ids t) (m : Node) (hm : m ∈ removeNodes t which) :
+    m.id ∈ ids t ∧ m.id ∉ which ∧
+    ((rootPath t m.id).tail.find? (fun a => !which.contains a) = some m.parent ∨
+      ((rootPath t m.id).tail.find? (fun a => !which.contains a) = none ∧ m.parent < 0)) :=
+  Navis.Forest.removeNodes_parent_is_nearest_kept_ancestor hw hg hm
+
+/-! ### `downsample` -/
+
+theorem downsample_preserves_WF (t : Table) (hw : WF t) (f : Option Nat) (pres : List Int) :
+    WF (downsample t f pres) := WF_downsample hw f pres
+
+/-- Kept nodes are original nodes with unchanged ids and coordinates. -/
+theorem downsample_subset (t : Table) (f : Option Nat) (pres : List Int) :
+    ∀ m ∈ downsample t f pres, ∃ n ∈ t, n.id = m.id ∧ n.x = m.x ∧ n.y = m.y ∧ n.z = m.z :=
+  Navis.Forest.downsample_subset t f pres
+
+/-- Every fix point — labelled non-slab (root, branch, end) or listed in `pres` (preserved nodes,
+somas) — survives downsampling. -/
+theorem downsample_keeps_fixpoints (t : Table) (hw : WF t) (f : Option Nat) (pres : List Int) (n : Node)
+    (hn : n ∈ t) (hfix : n.label ≠ .slab ∨ n.id ∈ pres) : n.id ∈ ids (downsample t f pres) :=
+  Navis.Forest.downsample_keeps_fixpoints hw f pres hn hfix
+
+/-! ### `insert_nodes` -/
+
+/-- New ids start above every existing id. -/
+theorem insertNodes_ids_fresh (t : Table) : ∀ i ∈ ids t, i ≤ maxId t := fun _ hi => le_maxId hi
+
+theorem insertNodes_ids (t : Table) (edgesPC : List (Int × Int)) (coords : List (Int × Int × Int)) :
+    ids (insertNodes t edgesPC coords) =
+      ids t ++ (List.range' 0 edgesPC.length).map fun (k : Nat) => maxId t + 1 + (k : Int) :=
+  ids_insertNodes t edgesPC coords
+
+/-- `insert_nodes` preserves well-formedness when every requested `(parent, child)` pair is an edge of
+the skeleton (what navis validates before inserting); duplicates in the request are allowed. -/
+theorem insertNodes_preserves_WF (t : Table) (hw : WF t) (edgesPC : List (Int × Int))
+    (coords : List (Int × Int × Int)) (hg : ∀ e ∈ edgesPC, ∃ n ∈ t, n.id = e.2 ∧ n.parent = e.1) :
+    WF (insertNodes t edgesPC coords) := WF_insertNodes hw edgesPC coords hg
+
+theorem insertNodes_labels_fresh (t : Table) (edgesPC : List (Int × Int)) (coords : List (Int × Int × Int)) :
+    labelsOKB (insertNodes t edgesPC coords) = true := labelsOKB_insertNodes t edgesPC coords
+
+/-! ### labels -/
 
 /-- Operations that end in a re-classification return correct labels. -/
 theorem subset_labels_fresh (t : Table) (keep : Int → Bool) : labelsOKB (subset t keep) = true := labelsOKB_subset t keep
 
+/-- Operations whose code path ends in `classify_nodes` (everything except `reroot`, which relabels
+incrementally). -/
+def Op.reclassifies : Op → Prop
+  | .reroot _ => False
+  | _ => True
+
+/-- An operation that ends in `classify_nodes` either returns its input unchanged (the cases where navis
+raises or returns early: cut at a root / absent node, `remove_nodes` with an unknown id, `downsample`
+of a table with at most one row) or returns a table with correct labels. -/
+theorem op_labels_fresh (t : Table) (op : Op) (hop : Op.reclassifies op) :
+    applyOp t op = t ∨ labelsOKB (applyOp t op) = true := by
+  cases op with
+  | subset k => exact Or.inr (labelsOKB_subset t _)
+  | reroot r => exact absurd hop (by simp [Op.reclassifies])
+  | cutDistal c =>
+    simp only [applyOp]
+    cases hc : cut t c with
+    | none => exact Or.inl rfl
+    | some dp => obtain ⟨d, p⟩ := dp; simp only; rw [(cut_some hc).1]; exact Or.inr (labelsOKB_subset t _)
+  | cutProximal c =>
+    simp only [applyOp]
+    cases hc : cut t c with
+    | none => exact Or.inl rfl
+    | some dp => obtain ⟨d, p⟩ := dp; simp only; rw [(cut_some hc).2.1]; exact Or.inr (labelsOKB_subset t _)
+  | reclassify => exact Or.inr (labelsOKB_classify t)
+  | removeNodes w => exact labelsOKB_removeNodes t w
+  | downsample f p => exact labelsOKB_downsample t f p
+
+/-- Hence correct labels are an invariant of every reclassifying operation. -/
+theorem op_labels_ok (t : Table) (hl : labelsOKB t = true) (op : Op) (hop : Op.reclassifies op) :
+    labelsOKB (applyOp t op) = true := by
+  rcases op_labels_fresh t op hop with h | h
+  · rw [h]; exact hl
+  · exact h
+
 /-! ### Non-vacuity -/
 def ex : Table := [⟨1, -1, 0, 0, 0, .root⟩, ⟨2, 1, 3, 0, 0, .branch⟩, ⟨3, 2, 6, 0, 0, .end_⟩, ⟨4, 2, 3, 4, 0, .end_⟩]
+/-- a chain 1 ← 2 ← 3 ← 4 ← 5 ← 6 with a side twig 7 at node 4 -/
+def ex2 : Table := [⟨1, -1, 0, 0, 0, .root⟩, ⟨2, 1, 0, 0, 0, .slab⟩, ⟨3, 2, 0, 0, 0, .slab⟩, ⟨4, 3, 0, 0, 0, .branch⟩,
+  ⟨5, 4, 0, 0, 0, .slab⟩, ⟨6, 5, 0, 0, 0, .end_⟩, ⟨7, 4, 0, 0, 0, .end_⟩]
 example : WF ex := (wfB_decides_WF ex).mp (by decide)
-example : WF ([Op.reroot 4, Op.subset [1, 2, 4], Op.cutDistal 2].foldl applyOp ex) :=
-  ops_preserve_WF_partial ex ((wfB_decides_WF ex).mp (by decide)) _ (by intro op h; simp at h; rcases h with rfl | rfl | rfl <;> trivial)
+example : WF ex2 := (wfB_decides_WF ex2).mp (by decide)
+example : WF ([Op.reroot 4, Op.subset [1, 2, 4], Op.cutDistal 2, Op.removeNodes [2], Op.downsample (some 2) [],
+    Op.reclassify].foldl applyOp ex) :=
+  ops_preserve_WF ex ((wfB_decides_WF ex).mp (by decide)) _
+/-- `remove_nodes` rewires across a run of removed nodes (3 and 2 removed: 4 hangs on 1) -/
+example : (removeNodes ex2 [3, 2]).map (fun n => (n.id, n.parent)) = [(1, -1), (4, 1), (5, 4), (6, 5), (7, 4)] := by decide
+/-- removing the root makes its child a root -/
+example : (removeNodes ex [1]).map (fun n => (n.id, n.parent, n.label)) =
+    [(2, -1, .root), (3, 2, .end_), (4, 2, .end_)] := by decide
+/-- `downsample` keeps root, branch, ends; factor 1 skips one slab per step (as the navis loop does),
+factor 2 two; `inf` keeps only the fix points; factor 0 (degenerate) keeps everything -/
+example : (downsample ex2 (some 1) []).map (fun n => (n.id, n.parent)) = [(1, -1), (2, 1), (4, 2), (6, 4), (7, 4)] := by decide
+example : (downsample ex2 (some 2) []).map (fun n => (n.id, n.parent)) = [(1, -1), (4, 1), (6, 4), (7, 4)] := by decide
+example : (downsample ex2 (some 2) [3]).map (fun n => (n.id, n.parent)) = [(1, -1), (3, 1), (4, 3), (6, 4), (7, 4)] := by decide
+example : (downsample ex2 (some 0) []).map (fun n => (n.id, n.parent)) = ex2.map (fun n => (n.id, n.parent)) := by decide
+example : (downsample ex2 none []).map (fun n => (n.id, n.parent)) = [(1, -1), (4, 1), (6, 4), (7, 4)] := by decide
+example : (downsample ex2 none [5]).map (fun n => (n.id, n.parent)) = [(1, -1), (4, 1), (5, 4), (6, 5), (7, 4)] := by decide
+example : wfB (downsample ex2 (some 2) [3]) = true := by decide
+/-- `insert_nodes` on two edges -/
+example : (insertNodes ex [(2, 3), (1, 2)] []).map (fun n => (n.id, n.parent)) =
+    [(1, -1), (2, 6), (3, 5), (4, 2), (5, 2), (6, 1)] := by decide
+example : WF (insertNodes ex [(2, 3), (1, 2)] []) :=
+  insertNodes_preserves_WF ex ((wfB_decides_WF ex).mp (by decide)) _ _ (by decide)
+/-- the edge guard of `insertNodes_preserves_WF` is needed: a non-edge `(3, 2)` closes a cycle 2 → 5 → 3 → 2 -/
+example : wfB (insertNodes ex [(3, 2)] []) = false := by decide
+/-- the fall-back disjunct of `op_labels_fresh` is needed: with an unknown id `remove_nodes` returns its
+input (navis raises), stale labels included -/
+example : labelsOKB (applyOp [⟨1, -1, 0, 0, 0, .slab⟩] (.removeNodes [9])) = false := by decide
 /-- a cyclic table is rejected -/
 example : wfB [⟨1, 2, 0, 0, 0, .slab⟩, ⟨2, 1, 0, 0, 0, .slab⟩] = false := by decide
 
